@@ -6,6 +6,7 @@ import GasolVerif.Models.Asm
 import GasolVerif.Models.Spec
 import GasolVerif.Models.SpecSem
 import GasolVerif.Models.PlainIO
+import GasolVerif.Models.EncodingIO
 open GasolVerif
 
 def parseWords? (s : String) : Option (List Word) :=
@@ -81,6 +82,7 @@ def handle (line : String) : String :=
   | ["REALIZES", src, tgt, instrs, deps, ids] => Spec.handleRealizes src tgt instrs deps ids
   | ["PLAINPARSE", text] => Plain.handlePlainParse text
   | ["PLAINPRINT", p0, items] => Plain.handlePlainPrint p0 items
+  | ["ENC", bs, b0, lim, uf, term, instrs, src, tgt, terms] => Enc.handleEnc bs b0 lim uf term instrs src tgt terms
   | _ => "error:unknown-request"
 
 partial def loop (h : IO.FS.Stream) (out : IO.FS.Stream) : IO Unit := do
